@@ -22,6 +22,9 @@ func genC17(p *Plan, r *RNG) {
 		if r.Chance(1, 8) {
 			a.S = "othersecret"
 		}
+		if r.Chance(1, 6) {
+			a.Flags = []string{"fresh-handler"}
+		}
 		var g int64
 		if dur > 20*sec && i < 3 {
 			g = dur / 4
